@@ -35,6 +35,18 @@ type Op struct {
 	Mode  string `json:"mode,omitempty"` // upload handler: read-all, read-some, read-none, close-early
 	Pad   int    `json:"pad,omitempty"`
 	Over  bool   `json:"over,omitempty"` // upload_data: deliberately exceed the advertised window by one byte
+	// Rsv (wu_conn, wu_stream): the reserved bit in front of the 31-bit increment is set; a receiver ignores it
+	// (RFC 9113 6.9), the increment counts as if the bit were clear
+	Rsv bool `json:"rsv,omitempty"`
+}
+
+// writeWU writes a WINDOW_UPDATE frame, with the reserved bit set if asked to.
+func writeWU(f *xhttp2.Framer, sid uint32, inc uint32, rsv bool) error {
+	if !rsv {
+		return f.WriteWindowUpdate(sid, inc)
+	}
+	inc |= 1 << 31
+	return f.WriteRawFrame(xhttp2.FrameWindowUpdate, 0, sid, []byte{byte(inc >> 24), byte(inc >> 16), byte(inc >> 8), byte(inc)})
 }
 
 type Script struct {
@@ -98,9 +110,9 @@ func gen(t *rapid.T) Script {
 			live[nDown] = true
 			nDown++
 		case "wu_conn":
-			s.Ops = append(s.Ops, Op{Kind: "wu_conn", N: rapid.SampledFrom([]int{1, 100, 16384, 16384, 65535, 65535, 1 << 20, 1 << 20, 1 << 24, 1<<31 - 1}).Draw(t, "inc")})
+			s.Ops = append(s.Ops, Op{Kind: "wu_conn", N: rapid.SampledFrom([]int{1, 100, 16384, 16384, 65535, 65535, 1 << 20, 1 << 20, 1 << 24, 1<<31 - 1}).Draw(t, "inc"), Rsv: rapid.IntRange(0, 3).Draw(t, "rsv") == 0})
 		case "wu_stream":
-			s.Ops = append(s.Ops, Op{Kind: "wu_stream", Idx: rapid.IntRange(0, nDown-1).Draw(t, "d"), N: rapid.SampledFrom([]int{1, 100, 16384, 16384, 65535, 65535, 1 << 20, 1 << 20, 1 << 24, 1<<31 - 1}).Draw(t, "inc")})
+			s.Ops = append(s.Ops, Op{Kind: "wu_stream", Idx: rapid.IntRange(0, nDown-1).Draw(t, "d"), N: rapid.SampledFrom([]int{1, 100, 16384, 16384, 65535, 65535, 1 << 20, 1 << 20, 1 << 24, 1<<31 - 1}).Draw(t, "inc"), Rsv: rapid.IntRange(0, 3).Draw(t, "rsv") == 0})
 		case "initial_window":
 			s.Ops = append(s.Ops, Op{Kind: "initial_window", N: rapid.SampledFrom([]int{0, 1, 100, 16384, 65535, 65536, 1 << 20, 1<<31 - 1}).Draw(t, "iw")})
 		case "max_frame":
@@ -446,7 +458,10 @@ func exec(t *testing.T, s Script) (viol *vstat.Violation, classes map[string]boo
 					classes["overflow-connection-window"] = true
 				}
 				connWin += int64(op.N)
-				peer.Fr.WriteWindowUpdate(0, uint32(op.N))
+				if op.Rsv {
+					classes["window-update-with-reserved-bit"] = true
+				}
+				writeWU(peer.Fr, 0, uint32(op.N), op.Rsv)
 			case "wu_stream":
 				d := downloads[op.Idx]
 				if d.reset {
@@ -460,7 +475,10 @@ func exec(t *testing.T, s Script) (viol *vstat.Violation, classes map[string]boo
 					classes["overflow-stream-window"] = true
 				}
 				d.win += int64(op.N)
-				peer.Fr.WriteWindowUpdate(d.sid, uint32(op.N))
+				if op.Rsv {
+					classes["window-update-with-reserved-bit"] = true
+				}
+				writeWU(peer.Fr, d.sid, uint32(op.N), op.Rsv)
 			case "initial_window":
 				if paused && len(pendingSettings) > 0 {
 					// x/net acknowledges all SETTINGS frames it processed while its writer was blocked with ONE
